@@ -14,6 +14,7 @@ static int to_child[2], from_child[2];
 static d_opts_t O;
 static int nextid = 1;
 static int created = 0;
+static int keepn = 0; static char keepdir[1100];   /* a backup that is kept: later backups / copies onto it must be refused and leave it intact */
 
 static void scan_to(ldb_t *db, char *buf, int *status) {
   ldb_iter_t *it = ldb_iterator(db, NULL); int n = 0, p = 0;
@@ -86,6 +87,17 @@ int main(int argc, char **argv) {
     } else if (r < 80) {    /* backup of the open database, then open the backup and scan it */
       ldb_t *db = H[1] ? H[1] : H[2], *bdb; int st;
       if (!db) continue;
+      if (keepn && d_rn(2) == 0) {
+        /* the target already holds a database: the call must be refused and must not touch what is there */
+        int which = d_rn(3);
+        if (which == 0) { rc = ldb_backup(db, keepdir); EV("backup_over", "\"n\":%d,\"rc\":%d", keepn, rc); }
+        else if (which == 1) { rc = ldb_backup(db, dbdir); EV("backup_self", "\"rc\":%d", rc); buf[0] = 0; st = -1; scan_to(db, buf, &st); EV("scan", "\"p\":0,\"status\":%d,\"items\":[%s]", st, buf); }
+        else { rc = ldb_copy(dbdir, keepdir, &O.o); EV("copy_over", "\"n\":%d,\"rc\":%d", keepn, rc); }
+        rc = ldb_open(keepdir, &O.o, &bdb); buf[0] = 0; st = -1;
+        if (rc == 0) { scan_to(bdb, buf, &st); ldb_close(bdb); }
+        EV("backup_scan", "\"n\":%d,\"rc\":%d,\"status\":%d,\"items\":[%s]", keepn, rc, st, buf);
+        continue;
+      }
       snprintf(bak, sizeof(bak), "%s/bak%d", base, ++nbak);
       rc = ldb_backup(db, bak);
       EV("backup", "\"n\":%d,\"rc\":%d", nbak, rc);
@@ -99,7 +111,8 @@ int main(int argc, char **argv) {
         rc = ldb_open(bak, &O.o, &bdb); buf[0] = 0; st = -1;
         if (rc == 0) { scan_to(bdb, buf, &st); ldb_close(bdb); }
         EV("backup_scan", "\"n\":%d,\"rc\":%d,\"status\":%d,\"items\":[%s]", nbak, rc, st, buf);
-        d_rmrf(bak);
+        if (!keepn && rc == 0) { keepn = nbak; snprintf(keepdir, sizeof(keepdir), "%s", bak); }   /* keep this one */
+        else d_rmrf(bak);
       }
     } else if (r < 85) {    /* copy of a closed database (while it is open the copy must be refused, and must not break the lock) */
       ldb_t *bdb; int st;
